@@ -110,7 +110,7 @@ theorem inv_rotate {cfg : Cfg} {s : St} {d : Disk} (h : Inv cfg s d) {s' : St} {
     rw [holds_iff] at hjc
     obtain ⟨jf, hjf, hall⟩ := hjc
     rw [hinfl, List.append_nil] at hall
-    have hjlt : s.jcur < s.nextFile := hrun.nums.1 _ (lookup_some_mem hjf)
+    have hjlt : s.jcur < s.nextFile := hrun.jmax.1
     have hnd := sorted_nodup h.disk.jsorted
     have hjfz : s.jfrozen = none := by
       rcases frozenOK_iff.1 hrun.frozen with ⟨_, h2⟩ | ⟨fz, jf', h1, _⟩
@@ -118,7 +118,7 @@ theorem inv_rotate {cfg : Cfg} {s : St} {d : Disk} (h : Inv cfg s d) {s' : St} {
       · rw [hfz] at h1; cases h1
     constructor
     · -- disk: `must` and `issuedGrps` do not change
-      exact DiskOK.journal_create h.disk s.nextFile hrun.nums.1
+      exact DiskOK.journal_create' h.disk s.nextFile hrun.nums.1
     · exact h.mm.of_same rfl rfl
     · intro _
       exact hb.of_same rfl (seqHi_le_of_not_window hntw hntw (Nat.le_refl _)) (Nat.le_succ _)
@@ -131,16 +131,20 @@ theorem inv_rotate {cfg : Cfg} {s : St} {d : Disk} (h : Inv cfg s d) {s' : St} {
         rw [lookup_set, if_pos rfl]
         show JournalHolds _ (⟨[], []⟩ : LogFile Grp) ([] ++ inflight s.w) s.seq
         rw [hinfl]
-        exact ⟨fun x hx => (by cases hx), fun x hx _ => (by cases hx), fun x hx => (by cases hx), fun _ => rfl,
+        exact ⟨fun x hx => (by cases hx), fun x hx _ => (by cases hx), fun x hx => (by cases hx),
           fun _ x hx => (by cases hx)⟩
-      · intro p hp
-        rcases (mem_set hnd).1 hp with rfl | ⟨hp0, _⟩
-        · exact Nat.le_refl _
-        · exact Nat.le_of_lt (r5.1 p hp0)
+      · refine ⟨Nat.lt_succ_self _, fun p hp => ?_⟩
+        rcases (mem_set hnd).1 hp with rfl | ⟨hp0, hne⟩
+        · exact Or.inl (Nat.le_refl _)
+        · rcases r5.1 p hp0 with h1 | h1
+          · exact Or.inl (Nat.le_of_lt h1)
+          · exact absurd h1.1 hne
       · refine ⟨fun p hp => ?_, r5.2.imp (fun m hm => Nat.lt_succ_of_lt hm)⟩
-        rcases (mem_set hnd).1 hp with rfl | ⟨hp0, _⟩
-        · exact Nat.lt_succ_self _
-        · exact Nat.lt_succ_of_lt (r5.1 p hp0)
+        rcases (mem_set hnd).1 hp with rfl | ⟨hp0, hne⟩
+        · exact Or.inl (Nat.lt_succ_self _)
+        · rcases r5.1 p hp0 with h1 | h1
+          · exact Or.inl (Nat.lt_succ_of_lt h1)
+          · exact absurd h1.1 hne
       · show WSeqOK _
         unfold WSeqOK
         cases hw : s.w <;> rw [hw] at hq <;> simp_all [WPc.quiet]
@@ -189,6 +193,76 @@ theorem inv_rotate {cfg : Cfg} {s : St} {d : Disk} (h : Inv cfg s d) {s' : St} {
         exact this
   · cases hs
 
+
+/-- `newMem` whose `Create` reports an error although the file was made: the file number is handed back
+    (`reuseFileNum`), an empty journal with that number stays behind.  It is above the current journal, so a
+    later `Open` replays it last — nothing; the next `newMem` truncates and adopts it. -/
+theorem inv_rotate_failEffect {cfg : Cfg} {s : St} {d : Disk} (h : Inv cfg s d) {s' : St} {d' : Disk}
+    (hs : stepWriter cfg s d (.rotate .failEffect) = some (s', d')) : Inv cfg s' d' := by
+  simp only [stepWriter, Disk.exec, Disk.apply] at hs
+  split at hs
+  · rename_i hg
+    obtain ⟨hph, hq, hfz, htr⟩ := hg
+    simp only [Outcome.failed, if_true, Option.some.injEq, Prod.mk.injEq] at hs
+    obtain ⟨rfl, rfl⟩ := hs
+    have hrun := h.run hph
+    have hb := h.bounds (by rw [hph]; decide)
+    have hjob := h.job_of_nofrozen hph hfz htr
+    have hjlt : s.jcur < s.nextFile := hrun.jmax.1
+    have hnd := sorted_nodup h.disk.jsorted
+    have hemp : ((⟨[], []⟩ : LogFile Grp)).all = [] := rfl
+    constructor
+    · exact DiskOK.journal_create' h.disk s.nextFile hrun.nums.1
+    · exact h.mm.of_same rfl rfl
+    · intro _
+      exact hb.of_same rfl (Nat.le_refl _) (Nat.le_refl _) (fun _ => ⟨hph, Nat.le_refl _⟩)
+    · intro _
+      obtain ⟨r1, r2, r3, r4, r5, r6, r7, r8, r9⟩ := hrun
+      refine ⟨r1, r2, ?_, ⟨r4.1, fun p hp => ?_⟩, ⟨fun p hp => ?_, r5.2⟩, r6, ?_, ?_, r9⟩
+      · show Holds (lookup (d.journals.set s.nextFile ⟨[], []⟩) s.jcur) _
+        rw [lookup_set, if_neg (Nat.ne_of_lt hjlt)]
+        exact r3
+      · rcases (mem_set hnd).1 hp with rfl | ⟨hp0, _⟩
+        · exact Or.inr rfl
+        · exact r4.2 p hp0
+      · rcases (mem_set hnd).1 hp with rfl | ⟨hp0, _⟩
+        · exact Or.inr ⟨rfl, rfl⟩
+        · exact r5.1 p hp0
+      · rcases frozenOK_iff.1 r7 with ⟨h1, h2⟩ | ⟨fz, jf', h1, _⟩
+        · exact frozenOK_iff.2 (Or.inl ⟨h1, h2⟩)
+        · rw [hfz] at h1; cases h1
+      · refine r8.imp (fun mf hmf => hmf.imp (fun v0 hv0 p hp hjn => ?_))
+        rcases (mem_set hnd).1 hp with rfl | ⟨hp0, _⟩
+        · exact Or.inr (Or.inr ⟨fun x hx => (by cases hx), fun _ => rfl⟩)
+        · exact hv0 p hp0 hjn
+    · intro hc; rw [hph] at hc; cases hc
+    · intro hc; rw [hph] at hc; cases hc
+    · show Holds' s.job _
+      cases hj : s.job with
+      | none => trivial
+      | some j =>
+        rw [hj] at hjob
+        have hk : j.kind = .compaction := hjob
+        have hok := h.job
+        rw [hj] at hok
+        obtain ⟨h1, h2, h3, h4, h5, h6, h7, h8, h9, h10, h11, h12⟩ := (hok : JobOK cfg s d j)
+        have hmk : j.mkJournal = none := by
+          unfold JobKindOK at h2; rw [hk] at h2; exact h2.2.1
+        refine ⟨h1, h2, h3, h4, h5, h6, h7, ?_, ?_, h10, h11, h12⟩
+        · unfold MkJournalOK; rw [hmk]; trivial
+        · refine h9.imp (fun v hv => ?_)
+          unfold RemovalsOK at hv ⊢
+          split
+          · rename_i rest heq
+            rw [heq] at hv
+            simp only at hv
+            have hnil : rest = [] := hv.2.2 (Or.inl hk)
+            subst hnil
+            exact ⟨fun n hn => (by cases hn), hv.2.1, fun _ => rfl⟩
+          · rename_i rest heq; rw [heq] at hv; exact hv
+          · rename_i rest heq; rw [heq] at hv; exact hv
+          · trivial
+  · cases hs
 
 theorem Inv.lastView_some {cfg : Cfg} {s : St} {d : Disk} (h : Inv cfg s d) :
     ∃ mf v, curManifest d = some mf ∧ lastView cfg d = some v ∧ viewAt cfg mf mf.unsynced.length = some v := by
@@ -276,7 +350,7 @@ theorem inv_flushStart {cfg : Cfg} {s : St} {d : Disk} (h : Inv cfg s d) {s' : S
             (not_trWindow_of_kind rfl (fun hk => by cases hk)) (Nat.le_refl _)) (Nat.le_succ _) (fun _ => ⟨hph, Nat.le_refl _⟩)
         · intro _
           obtain ⟨r1, r2, r3, r4, r5, r6, r7, r8, r9⟩ := hrun
-          refine ⟨r1, ⟨?_, r2.2⟩, r3, r4, ⟨fun p hp => Nat.lt_succ_of_lt (r5.1 p hp),
+          refine ⟨r1, ⟨?_, r2.2⟩, r3, ⟨Nat.lt_succ_of_lt r4.1, r4.2⟩, ⟨nums_bump r5.1 (Nat.lt_succ_self _),
             r5.2.imp (fun m hm => Nat.lt_succ_of_lt hm)⟩, r6, ?_, r8, fun hc => by cases hc⟩
           · show MfdOK _ d; unfold MfdOK; exact hmfd
           · apply frozenOK_iff.2
@@ -362,7 +436,7 @@ theorem inv_compactStart {cfg : Cfg} {s : St} {d : Disk} (h : Inv cfg s d) {inpu
         (not_trWindow_of_kind rfl (fun hk => by cases hk)) (Nat.le_refl _)) (Nat.le_succ _) (fun _ => ⟨hph, Nat.le_refl _⟩)
     · intro _
       obtain ⟨r1, r2, r3, r4, r5, r6, r7, r8, r9⟩ := hrun
-      refine ⟨r1, ⟨?_, r2.2⟩, r3, r4, ⟨fun p hp => Nat.lt_succ_of_lt (r5.1 p hp),
+      refine ⟨r1, ⟨?_, r2.2⟩, r3, ⟨Nat.lt_succ_of_lt r4.1, r4.2⟩, ⟨nums_bump r5.1 (Nat.lt_succ_self _),
         r5.2.imp (fun m hm => Nat.lt_succ_of_lt hm)⟩, r6, ?_, r8, fun hc => by cases hc⟩
       · show MfdOK _ d; unfold MfdOK; exact hmfd
       · rcases frozenOK_iff.1 r7 with ⟨h1, h2⟩ | ⟨fz, jf, h1, h2, f1, f2, f3, f4, f5, f6⟩
